@@ -310,9 +310,19 @@ class Program:
 
     def _add_function(self, mod, node, cls, parent, qualname) -> FunctionInfo:
         fi = FunctionInfo(mod, qualname, node, cls, parent)
-        self.functions[fi.fq] = fi
         if parent is not None:
-            parent.nested[node.name] = fi
+            # property accessors defined under one name inside a function: keep all three
+            key = node.name
+            for d in node.decorator_list:
+                ds = ast.unparse(d)
+                if ds.endswith(".setter"):
+                    key = node.name + "@setter"
+                elif ds.endswith(".deleter"):
+                    key = node.name + "@deleter"
+            if key != node.name:
+                fi.qualname = qualname + key[len(node.name):]
+            parent.nested[key] = fi
+        self.functions[fi.fq] = fi
         for sub in self._direct_nested_defs(node):
             self._add_function(mod, sub, cls, fi, f"{qualname}.{sub.name}")
         return fi
